@@ -16,6 +16,7 @@ pub trait Check {
 }
 
 pub mod c01;
+pub mod c03;
 pub mod c04;
 pub mod c08;
 pub mod c12;
@@ -29,6 +30,7 @@ pub mod progspace;
 pub fn all() -> Vec<Box<dyn Check>> {
     vec![
         Box::new(c01::C01),
+        Box::new(c03::C03),
         Box::new(c04::C04),
         Box::new(c08::C08),
         Box::new(c12::C12),
